@@ -216,27 +216,32 @@ type selRef struct {
 	parent string // type the items are selected on
 	depth  int
 	owner  *Node // nil for root / fragment definitions
+	inCall bool  // inside the selection of a field-resolver or @requires field
 }
 
 // allSelSets lists every selection set of the operation (including fragment definitions).
 func (g *Gen) allSelSets(op *Op) []selRef {
 	var out []selRef
-	var walk func(items *[]*Node, parent string, depth int, owner *Node)
-	walk = func(items *[]*Node, parent string, depth int, owner *Node) {
-		out = append(out, selRef{items, parent, depth, owner})
+	var walk func(items *[]*Node, parent string, depth int, owner *Node, inCall bool)
+	walk = func(items *[]*Node, parent string, depth int, owner *Node, inCall bool) {
+		out = append(out, selRef{items, parent, depth, owner, inCall})
 		for _, n := range *items {
 			if n.Sel != nil {
 				d := depth
+				ic := inCall
 				if n.Kind == "f" {
 					d++
+					if fd := g.S.Field(parent, n.Name); fd != nil && (fd.Resolver || fd.Requires != "") {
+						ic = true
+					}
 				}
-				walk(&n.Sel, g.childType(parent, n, op), d, n)
+				walk(&n.Sel, g.childType(parent, n, op), d, n, ic)
 			}
 		}
 	}
-	walk(&op.Root, op.RootType(), 0, nil)
+	walk(&op.Root, op.RootType(), 0, nil, false)
 	for _, f := range op.Frags {
-		walk(&f.Sel, f.Cond, 1, nil)
+		walk(&f.Sel, f.Cond, 1, nil, true)
 	}
 	return out
 }
@@ -297,6 +302,7 @@ type Gen struct {
 	fragN   int
 	MaxD    int
 	NoResol bool
+	Safe    bool // profile: avoid the constructions with known defects (see tools/props/c20.py)
 	// ResolverOK: may a field-resolver field be selected at a position with this context (see childCtx)?
 	ResolverOK func(ctx string) bool
 }
@@ -328,6 +334,9 @@ func (g *Gen) genValueNN(t *TypeRef, depth int) any {
 		n := g.R.Pick(4)
 		if depth > 3 {
 			n = g.R.Pick(2)
+		}
+		if td := g.S.Types[t.Of.Base()]; g.Safe && td != nil && td.Kind == "enum" {
+			n = 0 // a non-empty list of enum values makes the request compiler panic (known finding)
 		}
 		out := make([]any, 0, n)
 		for i := 0; i < n; i++ {
@@ -493,6 +502,11 @@ func (g *Gen) rootCandidates(rootType string) []*FieldDef {
 func (g *Gen) GenOp(mode string) *Op {
 	g.MaxD = 2 + g.R.Pick(4)
 	g.NoResol = g.R.Chance(1, 4)
+	if g.Safe {
+		g.ResolverOK = func(ctx string) bool { return !strings.ContainsAny(ctx, "ano") }
+	} else {
+		g.ResolverOK = nil
+	}
 	op := &Op{Kind: "query", Values: map[string]json.RawMessage{}}
 	switch mode {
 	case "mutation":
@@ -543,13 +557,16 @@ func (g *Gen) genEntityOp(op *Op) {
 	if len(chosen) > 2 {
 		chosen = chosen[:2]
 	}
+	if g.Safe {
+		chosen = chosen[:1]
+	}
 	g.uid++
 	root := &Node{Kind: "f", UID: g.uid, Name: "_entities", Args: []Arg{{Name: "representations", Var: "representations"}}}
 	op.VarDefs = append(op.VarDefs, VarDef{Name: "representations", Type: "[_Any!]!"})
 	needed := map[string][]string{} // type -> @requires selections whose externals must be in the representations
 	for _, e := range chosen {
 		t := g.S.Types[e]
-		sel := g.pickFields(op, t, 1, true, 1, "al")
+		sel := g.pickFields(op, t, 1, true, 1, "e")
 		if g.R.Chance(1, 3) {
 			sel = append(sel, g.typenameField())
 		}
@@ -793,7 +810,7 @@ func (g *Gen) rfDuplicate(op *Op) {
 		}
 		src := common.PickOf(g.R, fields)
 		c := cloneNodes([]*Node{src})[0]
-		if g.R.Chance(1, 2) {
+		if g.R.Chance(1, 2) && !(g.Safe && r.inCall) {
 			g.aliasN++
 			c.Alias = fmt.Sprintf("a%d", g.aliasN)
 		}
@@ -900,6 +917,28 @@ func (g *Gen) rfSubset(op *Op) {
 
 var rfNames = []string{"alias", "reorder", "duplicate", "fragment", "subset"}
 
+// sanitizeSafe (safe profile): inside the selection of a field-resolver / @requires field an
+// aliased copy of a field that is also selected without alias is dropped by the plan builder
+// (known finding); make such copies exact duplicates instead.
+func (g *Gen) sanitizeSafe(op *Op) {
+	for _, r := range g.allSelSets(op) {
+		if !r.inCall {
+			continue
+		}
+		plain := map[string]bool{}
+		for _, n := range *r.items {
+			if n.Kind == "f" && n.Alias == "" {
+				plain[n.Name] = true
+			}
+		}
+		for _, n := range *r.items {
+			if n.Kind == "f" && n.Alias != "" && plain[n.Name] {
+				n.Alias = ""
+			}
+		}
+	}
+}
+
 // Reformulate applies 1-3 random reformulation steps to a copy of op.
 func (g *Gen) Reformulate(op *Op) *Op {
 	c := op.Clone()
@@ -922,5 +961,8 @@ func (g *Gen) Reformulate(op *Op) *Op {
 		}
 	}
 	c.Label = strings.Join(names, "+")
+	if g.Safe {
+		g.sanitizeSafe(c)
+	}
 	return c
 }
